@@ -173,6 +173,46 @@ def display_structure(f):
     return head_ok, loop_ok
 
 
+def opaque_args_in_order(f):
+    """GateWriter::write_opaque: the qubit arguments of the parsed gate are exactly the `regs` it is given, in order.  (ok, msg)"""
+    regs = [p for p in f['params'] if p.get('k') == 'Bind' and p['name'] not in ('self', 'name', 'params')]
+    if len(regs) != 1:
+        return None, 'write_opaque no longer takes (name, params, regs) (anchor-missing)'
+    rid = regs[0]['id']
+    gl = [n for n in hir.nodes(f['hir'], into_closures=False) if n.get('k') == 'Let' and n['pat'].get('k') == 'Bind' and n.get('init') is not None and (hir.callee(hir.strip(n['init'])) or '').endswith('from_qasm_name')]
+    if len(gl) != 1:
+        return None, 'the gate is no longer created with Gate::from_qasm_name (not-established-by-recognised-idiom)'
+    gid = gl[0]['pat']['id']
+    writes = []
+    for n in hir.nodes(f['hir']):
+        k = n.get('k')
+        if k == 'MethodCall':
+            r = hir.strip(n['recv'])
+            if r.get('k') == 'Field' and r['name'] == 'qs' and hir.local(r['e']) and hir.local(r['e'])[1] == gid and (n['recv'].get('mutborrow') or r.get('mutborrow')):
+                writes.append((n['name'], n))
+        if k in ('Assign', 'AssignOp'):
+            l = hir.strip(n['l'])
+            if l.get('k') == 'Field' and l['name'] == 'qs' and hir.local(l['e']) and hir.local(l['e'])[1] == gid:
+                writes.append(('=', n))
+            if l.get('k') == 'Index' and hir.strip(l['e']).get('k') == 'Field' and hir.strip(l['e'])['name'] == 'qs':
+                writes.append(('[]=', n))
+
+    def is_regs(e):
+        e = hir.strip(e)
+        while e.get('k') == 'MethodCall' and e['name'] in ('iter', 'copied', 'cloned', 'to_vec', 'into_iter', 'collect', 'as_slice'):
+            e = hir.strip(e['recv'])
+        l = hir.local(e)
+        return bool(l and l[1] == rid)
+    good = [w for w in writes if (w[0] in ('extend_from_slice', 'extend') and is_regs(w[1]['args'][0])) or (w[0] == '=' and w[1]['k'] == 'Assign' and is_regs(w[1]['r']))]
+    other = [w for w in writes if w not in good]
+    if len(good) != 1:
+        return False, 'the parsed gate must receive exactly the qubit list `regs` it was given (found %d such assignment(s))' % len(good)
+    if other:
+        return False, ('the qubit arguments of a parsed gate are rearranged (`%s`): argument order is part of the gate — sorting `ccx c, b, a` moves the target onto another wire, and the printed form of the parsed circuit '
+                       'no longer has the same qubit arguments' % hir.pp(other[0][1])[:50])
+    return True, ''
+
+
 def run(ck):
     facts = ck.facts
     ck.decided('D1 name tables: from_qasm_name(qasm_name(k)) = k for every kind but UnknownGate, names equal the standard ones; the opaque prelude declares every gate name of the property with arity num_qubits() and one parameter exactly when to_qasm prints one',
@@ -281,6 +321,25 @@ def run(ck):
     h, l = display_structure(df)
     ck.ob('R-EFFECT', 'Display/header', h, ck.site('<circuit::Circuit as std::fmt::Display>::fmt'), 'the qreg header must print self.num_qubits()')
     ck.ob('R-EFFECT', 'Display/all-gates-in-order', l, ck.site('<circuit::Circuit as std::fmt::Display>::fmt'), 'every gate of self.gates must be printed, unconditionally and in order, through to_qasm')
+    wk = [k for k in facts['fns'] if k.endswith('::write_opaque') and 'GateWriter' in k and 'param_to_phase' not in k]
+    if len(wk) != 1:
+        ck.violation('R-DATAFLOW-args', 'write_opaque/args-in-order', 'quizx/src/circuit.rs', 'anchor-missing: GateWriter::write_opaque')
+    else:
+        ok, msg = opaque_args_in_order(ck.fn(wk[0]))
+        if ok is None:
+            ck.violation('R-DATAFLOW-args', 'write_opaque/args-in-order', ck.site(wk[0]), msg)
+        else:
+            ck.ob('R-DATAFLOW-args', 'write_opaque/args-in-order', ok, ck.site(wk[0]), msg)
+    # a program without statements still has a qubit count: openqasm's Linearize calls GateWriter::initialize (the only place the count is set) when it meets the
+    # first statement, so the parser needs a fallback that reads the register declarations
+    pk = 'circuit::Circuit::from_qasm_parser'
+    pf = ck.fn(pk)
+    starts_unknown = any((hir.callee(c) or '') == 'circuit::Circuit::new' and hir.lit_int(hir.strip(c['args'][0])) == 0 for c in hir.calls(pf['hir']))
+    reads_decls = any(n.get('k') == 'Field' and n['name'] == 'decls' for n in hir.nodes(pf['hir'])) and any('QReg' in (hir.pat_ctor(a['pat']) or hir.pp_pat(a['pat'])) for m in hir.find(pf['hir'], 'Match') for a in m['arms'])
+    sets_count = [c for c in hir.calls(pf['hir']) if (hir.callee(c) or '') == 'circuit::Circuit::new' and hir.lit_int(hir.strip(c['args'][0])) is None]
+    ck.ob('R-PATH', 'from_qasm/qubit-count-of-a-program-without-statements', (not starts_unknown) or (reads_decls and bool(sets_count)), ck.site(pk),
+          'the parsed circuit starts with 0 qubits and its count is only ever set by GateWriter::initialize, which openqasm calls at the first statement: a program that declares registers but has no gate '
+          '(what Circuit::new(n).to_qasm() prints) parses back as a 0-qubit circuit — zero-gate circuits do not round-trip')
     # positive controls
     fx = fixture()
     nt2 = name_tables(fx)
